@@ -230,4 +230,24 @@ def shoot (v : Variant) (i : ShootIn) : Except Err ShootOut :=
           genSp := ko, genIdx := i.idx, genNb := pb.length - 1, timeOrigin := to1, draws := draws,
           usedB := usedB, usedF := usedF }
 
+/-! ### run_md (tis.py:70-107): the live path is replaced only on "ACC" -/
+
+structure MdOut where
+  status : Status
+  live : List Int              -- order values of `picked[ens]["traj"]` after run_md
+  replaced : Bool              -- `picked[ens]["traj"] is trial`
+  trialLen : Nat               -- md_items["trial_len"]
+deriving Repr, DecidableEq
+
+/-- `run_md` for a one-ensemble shooting job: `select_shoot` calls `shoot` with
+    `start_cond = ens_set["start_cond"]`; afterwards `if status == "ACC": picked[ens]["traj"] = trial`
+    (the test is on the status string, not on the accept flag). The old path object is not
+    passed to anything else. -/
+def runMd (v : Variant) (i : ShootIn) : Except Err MdOut :=
+  match shoot v i with
+  | .error e => .error e
+  | .ok o =>
+    if o.status = .ACC then .ok { status := o.status, live := o.trial, replaced := true, trialLen := o.trial.length }
+    else .ok { status := o.status, live := i.old, replaced := false, trialLen := o.trial.length }
+
 end Infretis.Moves
